@@ -321,7 +321,7 @@ pub fn check(cfg: &Config, tr: &Trace) -> Vec<Violation> {
         // the bracket of the emitting callable: its inv-th Started / result in this scenario
         let is_start = |e: &ScEv| -> bool {
             if let Some(text) = key.strip_prefix("step ").map(|_| key.as_str()) {
-                matches!(e, ScEv::Step(_, t, _, StepEv::Started) if t == text)
+                matches!(e, ScEv::Step(_, t, _, StepEv::Started) if crate::spec::strip_lead(t) == text)
             } else if key.starts_with("before ") {
                 matches!(e, ScEv::Hook(HookKind::Before, HookEv::Started))
             } else {
@@ -330,7 +330,7 @@ pub fn check(cfg: &Config, tr: &Trace) -> Vec<Violation> {
         };
         let is_result = |e: &ScEv| -> bool {
             if key.starts_with("step ") {
-                matches!(e, ScEv::Step(_, t, _, StepEv::Passed | StepEv::Failed(..) | StepEv::Skipped) if t == key)
+                matches!(e, ScEv::Step(_, t, _, StepEv::Passed | StepEv::Failed(..) | StepEv::Skipped) if crate::spec::strip_lead(t) == key)
             } else if key.starts_with("before ") {
                 matches!(e, ScEv::Hook(HookKind::Before, HookEv::Passed | HookEv::Failed(..)))
             } else {
